@@ -94,6 +94,18 @@ impl Disk {
     /// generator-side convenience), creating parent directories.
     pub fn add_file(&mut self, path: &str, data: Vec<u8>) {
         let abs = if path.starts_with('/') { path.to_string() } else { join(&self.cwd.clone(), path) };
+        // lexical normalisation of '.', '..' and empty components
+        let mut comps: Vec<&str> = Vec::new();
+        for c in abs.split('/') {
+            match c {
+                "" | "." => {}
+                ".." => {
+                    comps.pop();
+                }
+                other => comps.push(other),
+            }
+        }
+        let abs = format!("/{}", comps.join("/"));
         let parent = parent_of(&abs);
         self.mkdir_p(&parent);
         self.nodes.insert(abs, Node::File(data));
